@@ -54,6 +54,11 @@ var pool = []request{
 	{name: "alias j, other literal", q: `{ j: f(x: 2) o { x } }`},
 	{name: "no alias, variable", q: `query($x: Int = 3) { f(x: $x) o { x } }`},
 	{name: "one literal at a nullable and at a non-null position", q: `{ f(x: 7) r(q: 7) }`},
+	// lists filtered per request from storage that belongs to the schema
+	{name: "enum values without the deprecated ones", q: `{ __type(name: "E") { enumValues { name } } }`},
+	{name: "enum values with the deprecated ones", q: `{ __type(name: "E") { enumValues(includeDeprecated: true) { name isDeprecated } } }`},
+	{name: "fields without the deprecated ones", q: `{ __type(name: "O") { fields { name } } }`},
+	{name: "two conflicting response names in one selection set", q: `{ o { a: x a: y b: x b: y c: x c: n } }`},
 }
 
 var curX *explore.X
@@ -134,15 +139,22 @@ func validation(f *execx.Fixture, rq request) string {
 	return string(b)
 }
 
+// kitchen is the schema of this check: the kitchen schema plus a deprecated field and a
+// deprecated enum value, each sorting first among its siblings, and a required argument.
+func kitchen() *gen.Schema {
+	g := gen.Kitchen()
+	g.Types["O"].Fields = append(g.Types["O"].Fields, &gen.FieldDef{Name: "aOld", Type: gen.Named("String"), Deprecated: "old"})
+	g.Types["Query"].Fields = append(g.Types["Query"].Fields, gen.F("r(q:Int!):String"))
+	g.Types["E"].Values[0].Deprecated = "old"
+	return g
+}
+
 func run(c *core.Ctx) {
 	maxDev := c.Pick(1, 2)
 	c.R.Rule = "case = (request of the pool: valid, each class of validation error with suggestions, variable errors with several bad fields, failing fields and failing thunks, full and partial introspection, a mutation with thunks; placement of <= k deviating iteration orders - reversed or one adjacent transposition - at the map walks the library performs while serving it; also with the schema built inside the permuted region; histories of <= 2 other requests on the same schema and plan cache); oracle: byte-identical JSON; non-trivial = at least one deviating map walk or a non-empty history"
 	c.R.Assumptions = []string{"map-range seam: any key order is a legal Go map iteration order, so a response that depends on it can differ between runs and processes", "Go toolchain"}
 	c.R.Bounds["deviating_map_walks"] = maxDev
-	g := gen.Kitchen()
-	// a deprecated field and value so that includeDeprecated lists have content
-	g.Types["O"].Fields = append(g.Types["O"].Fields, &gen.FieldDef{Name: "aOld", Type: gen.Named("String"), Deprecated: "old"})
-	g.Types["Query"].Fields = append(g.Types["Query"].Fields, gen.F("r(q:Int!):String"))
+	g := kitchen()
 	f, err := execx.NewFixture(g, bridge.Options{})
 	if err != nil {
 		c.R.HarnessError("fixture: %v", err)
@@ -191,12 +203,22 @@ func run(c *core.Ctx) {
 			return
 		}
 	}
-	// (2) histories: every request after every sequence of <= 2 other requests, on the same
-	// schema and one plan cache (plain and normalising)
+	// (2) histories: every request after every sequence of <= 2 other requests, on one
+	// schema and one plan cache (plain and normalising). Every history starts from a schema
+	// built for it, and the reference answer comes from yet another new schema through an
+	// empty cache of the same kind: state that an earlier request leaves behind in the cache,
+	// in a plan OR in the schema itself changes the answer and is reported.
 	idx := 0
 	for _, norm := range []bool{false, true} {
 		for ri, rq := range pool {
-			base := exec(f, rq, nil)
+			fb, err := execx.NewFixture(g, bridge.Options{})
+			if err != nil {
+				c.R.HarnessError("fixture: %v", err)
+				return
+			}
+			// through the cache error locations may refer to the normalised document, so the
+			// reference goes through a cache, too
+			fresh := exec(fb, rq, graphql.NewPlanCache(graphql.PlanCacheOptions{MaxEntries: 2, Normalize: norm}))
 			for h1 := -1; h1 < len(pool); h1++ {
 				for h2 := -1; h2 < len(pool); h2++ {
 					if h1 == -1 && h2 != -1 {
@@ -207,29 +229,33 @@ func run(c *core.Ctx) {
 						continue
 					}
 					idx++
+					fh, err := execx.NewFixture(g, bridge.Options{})
+					if err != nil {
+						c.R.HarnessError("fixture: %v", err)
+						return
+					}
 					cache := graphql.NewPlanCache(graphql.PlanCacheOptions{MaxEntries: 2, Normalize: norm})
 					if h1 >= 0 {
-						exec(f, pool[h1], cache)
+						exec(fh, pool[h1], cache)
 					}
 					if h2 >= 0 {
-						exec(f, pool[h2], cache)
+						exec(fh, pool[h2], cache)
 					}
-					got := exec(f, rq, cache)
+					got := exec(fh, rq, cache)
 					c.R.Evaluations++
 					c.R.States++
 					c.R.Transitions += 3
 					if h1 >= 0 {
 						c.R.Nontriv(report.H(fmt.Sprint("h", norm, ri, h1, h2)))
 					}
-					// through the cache error locations may refer to the normalised document:
-					// compare with the history-free run through an empty cache of the same kind
-					fresh := exec(f, rq, graphql.NewPlanCache(graphql.PlanCacheOptions{MaxEntries: 2, Normalize: norm}))
 					if got != fresh {
 						c.Mismatch("", "history "+rq.name, fmt.Sprintf("%s %q after requests [%d %d] (normalising=%v): %s instead of %s", rq.name, rq.q, h1, h2, norm, trunc(got), trunc(fresh)),
 							map[string]interface{}{"request": ri, "h1": h1, "h2": h2, "norm": norm})
 					}
-					_ = base
 				}
+			}
+			if c.Expired() {
+				return
 			}
 		}
 	}
@@ -344,9 +370,7 @@ func firstDiff(a, b string, n int) string {
 }
 
 func replay(c *core.Ctx, p map[string]interface{}) (bool, string) {
-	g := gen.Kitchen()
-	g.Types["O"].Fields = append(g.Types["O"].Fields, &gen.FieldDef{Name: "aOld", Type: gen.Named("String"), Deprecated: "old"})
-	g.Types["Query"].Fields = append(g.Types["Query"].Fields, gen.F("r(q:Int!):String"))
+	g := kitchen()
 	f, err := execx.NewFixture(g, bridge.Options{})
 	if err != nil {
 		return false, err.Error()
